@@ -3972,22 +3972,28 @@ impl fmt::Display for Statement {
             } => {
                 write!(
                     f,
-                    "CREATE {or_replace}{materialized}{temporary}VIEW {if_not_exists}{name}{to}",
+                    "CREATE {or_replace}{temporary}{materialized}VIEW {if_not_exists}{name}",
                     or_replace = if *or_replace { "OR REPLACE " } else { "" },
                     materialized = if *materialized { "MATERIALIZED " } else { "" },
                     name = name,
                     temporary = if *temporary { "TEMPORARY " } else { "" },
                     if_not_exists = if *if_not_exists { "IF NOT EXISTS " } else { "" },
-                    to = to
-                        .as_ref()
-                        .map(|to| format!(" TO {to}"))
-                        .unwrap_or_default()
                 )?;
+                // in the order `parse_create_view` reads the clauses
                 if !columns.is_empty() {
                     write!(f, " ({})", display_comma_separated(columns))?;
                 }
                 if matches!(options, CreateTableOptions::With(_)) {
                     write!(f, " {options}")?;
+                }
+                if !cluster_by.is_empty() {
+                    write!(f, " CLUSTER BY ({})", display_comma_separated(cluster_by))?;
+                }
+                if matches!(options, CreateTableOptions::Options(_)) {
+                    write!(f, " {options}")?;
+                }
+                if let Some(to) = to {
+                    write!(f, " TO {to}")?;
                 }
                 if let Some(comment) = comment {
                     write!(
@@ -3995,12 +4001,6 @@ impl fmt::Display for Statement {
                         " COMMENT = '{}'",
                         value::escape_single_quote_string(comment)
                     )?;
-                }
-                if !cluster_by.is_empty() {
-                    write!(f, " CLUSTER BY ({})", display_comma_separated(cluster_by))?;
-                }
-                if matches!(options, CreateTableOptions::Options(_)) {
-                    write!(f, " {options}")?;
                 }
                 write!(f, " AS {query}")?;
                 if *with_no_schema_binding {
